@@ -250,12 +250,19 @@ func c14Method(c *Ctx, ct *Cont, fd *ast.FuncDecl, m *types.Func, fam, name stri
 	sig := m.Type().(*types.Signature)
 	r1 := func(suffix string) *Ob { return c.Ob("C14.R1", name+"/"+suffix, fd.Pos()) }
 	r2 := func(suffix string) *Ob { return c.Ob("C14.R2", name+"/"+suffix, fd.Pos()) }
-	paths, why := c.runPaths(fd)
+	// a view built on a sibling view of the same receiver (BoolSlice on ForEachBool, called statically) is followed into the sibling
+	paths, why := c.runPathsWith(fd, func(x *SX) { x.InlineStaticSelf = true })
 	if why != "" {
 		r1("loop").Undecided("body outside the path vocabulary: %s", why)
 		return
 	}
 	v := c.view(fd)
+	if fam == "All" {
+		// a predicate over all elements without callbacks: the order of the visit does not matter
+		v2 := *v
+		v2.anyOrder = true
+		paths = v2.normalizePaths(paths)
+	}
 	// the main path (after the loop) and the loop
 	var main *Path
 	var loop *LoopRec
